@@ -3,6 +3,7 @@
 EXTENDS Socks5, Json
 
 CONSTANT Tier        \* "quick" | "thorough" | "tun" (only the tunnel-level slice: run by C02 and C20 as well)
+                     \* | "probe" (only the multiplexer requests of the tunnel-level slice: run by C10)
 
 Neg1 == 0 - 1
 
@@ -68,7 +69,8 @@ TlsDomain == << 118, 112, 110, 46, 101, 120, 97, 109, 112, 108, 101 >>      \* "
 UserAgent == << 84, 84, 47, 49, 32, 195, 169 >>                            \* "TT/1 " U+00E9
 Client4   == << 203, 0, 113, 7 >>
 Client6   == << 32, 1, 13, 184, 0, 0, 0, 0, 0, 0, 0, 0, 0, 0, 0, 66 >>
-MCExtParams == [tls |-> TlsDomain, ua |-> UserAgent, client4 |-> Client4, client6 |-> Client6]
+UserAgentText == << 84, 84, 45, 118, 101, 114, 105, 102, 47, 49, 46, 48, 32, 40, 112, 114, 111, 98, 101, 41 >>   \* "TT-verif/1.0 (probe)"
+MCExtParams == [tls |-> TlsDomain, ua |-> UserAgent, uaText |-> UserAgentText, client4 |-> Client4, client6 |-> Client6]
 
 MCAuthKinds == [nm \in AuthNames |-> AuthKind(nm)]
 
@@ -144,7 +146,14 @@ Base == [ auth |-> << "b", 1, 1 >>, ext |-> "no", dest |-> "v4",
           trunc |-> Neg1, exact |-> FALSE, exactIfFail |-> FALSE, chunks |-> << >>, preload |-> FALSE,
           \* tunnel level: the scenario is also run through the real Tunnel with the SOCKS5 forwarder,
           \* the client uploading `up` octets once the tunnel is established
-          tun |-> FALSE, up |-> 0 ]
+          tun |-> FALSE, up |-> 0,
+          \* the upstream does not take the TCP connection (nothing listens at its address)
+          refuse |-> FALSE,
+          \* the upstream says what it says (`trunc`) and then falls silent, keeping the connection open
+          silent |-> FALSE,
+          \* tunnel level, a multiplexer request (dest = "udp", the forwarder's probe): which multiplexer the client
+          \* asks for, and the datagrams << source, destination >> it sends once the request is accepted
+          mux |-> "udp", flows |-> << >> ]
 
 \* the server a well-behaved deployment has for these credentials
 Natural(a, e) == [Base EXCEPT !.auth = a, !.ext = e, !.method = MethodFor(a, e),
@@ -272,6 +281,37 @@ Tun(s, tail, up) == [s EXCEPT !.tun = TRUE, !.tail = tail, !.up = up, !.exactIfF
 \* (DatagramMuxAuthenticator::check_auth) towards the harness's relay before the request is answered
 TunUdp(s) == [s EXCEPT !.tun = TRUE, !.dest = "udp", !.bnd = "relay4", !.tail = 0, !.exactIfFail = TRUE]
 
+\* ... and then serves the client's UDP flows: every source of datagrams gets an association of its own
+\* (UdpMuxSocks.tla), opened by a handshake of its own - with the credentials of the session
+SessionFlows == << << 1, 1 >>, << 2, 1 >>, << 1, 2 >> >>
+TunUdpFlows(s) == [TunUdp(s) EXCEPT !.flows = SessionFlows]
+
+\* A multiplexer request (CONNECT _udp2 / _icmp) made with credentials, against an upstream that fails the
+\* forwarder's probe in every way: it does not take the connection, it ends its side after any number of
+\* octets of what a well-behaved server says, it refuses the credentials or every method, it answers with
+\* a version or a field that is not SOCKS5, it replies with every failure code, it binds a name.
+ProbeAuths == { << "b", 1, 1 >>, << "sni", 32, 0 >>, << "cn", "c-plain", 0 >> }
+ProbeFaults(n) ==       \* n: the natural scenario of the credentials
+    LET L == Len(StreamFull(TunUdp(n))) IN
+    { [TunUdp(n) EXCEPT !.refuse = TRUE] }
+    \cup { [TunUdp(n) EXCEPT !.trunc = t, !.exactIfFail = FALSE] : t \in 0..(L - 1) }
+    \cup { TunUdp([n EXCEPT !.rep = r]) : r \in 1..9 }
+    \cup { TunUdp([n EXCEPT !.astatus = 1]), TunUdp([n EXCEPT !.astatus = 255]),
+           TunUdp([n EXCEPT !.method = 255, !.aver = Neg1]), TunUdp([n EXCEPT !.method = 1, !.aver = Neg1]),
+           TunUdp([n EXCEPT !.mver = 4, !.aver = Neg1]), TunUdp([n EXCEPT !.aver = 5]),
+           TunUdp([n EXCEPT !.rver = 4]), TunUdp([n EXCEPT !.rsv = 1]),
+           [TunUdp(n) EXCEPT !.bnd = "dom3"], [TunUdp(n) EXCEPT !.bnd = "other5"] }
+\* ... or says part of it and falls silent: the request is answered when the establishment timer fires
+ProbeSilent(n) == { [TunUdp(n) EXCEPT !.silent = TRUE, !.trunc = t, !.exactIfFail = FALSE] : t \in {0, 4} }
+ConnectSilent == { [Tun([Natural(<< "b", 1, 1 >>, "no") EXCEPT !.dest = "dom1"], 0, 0) EXCEPT !.silent = TRUE, !.trunc = t, !.exactIfFail = FALSE] : t \in {0, 9} }
+
+ProbeSlice ==
+    { TunUdpFlows(Natural(NoneName, "no")) } \cup
+    { TunUdpFlows(Natural(a, "e4t")) : a \in ProbeAuths } \cup     \* (extended authentication with a User-Agent)
+    { [f EXCEPT !.mux = m] : f \in ProbeSilent(Natural(<< "b", 1, 1 >>, "no")), m \in {"udp", "icmp"} }
+    \cup UNION { { [f EXCEPT !.mux = m] : f \in ProbeFaults(Natural(a, e)) \cup { TunUdpFlows(Natural(a, e)) } }
+            : a \in ProbeAuths, e \in {"no", "e6"}, m \in {"udp", "icmp"} }
+
 TunAuthPairs == { << a, "no" >> : a \in AuthNames }
                 \cup { << a, "e6" >> : a \in ExtAuthNames \cup { << "cn", "c-plain", 0 >>, << "cn", "c-nocolon", 0 >>, << "cn", "c-junk", 0 >> } }
 TunOddAuths == CanaryNames \cup { << "b", 1, 1 >>, << "sni", 32, 0 >>, << "x", "colon", 0 >> }
@@ -279,7 +319,7 @@ SuccessBnds == {"v4", "v6", "dom0", "dom3", "dom255"}
 
 TunSlice ==
     \* every credentials class, a server that plays along, a host-name destination
-    { Tun([Natural(pr[1], pr[2]) EXCEPT !.dest = "dom1"], 41, 29) : pr \in TunAuthPairs }
+    { Tun([Natural(pr[1], pr[2]) EXCEPT !.dest = "dom1"], 41, 29) : pr \in TunAuthPairs \cup { << a, "e4t" >> : a \in ProbeAuths } }
     \* servers that refuse or answer out of turn, with client-controlled credentials in every shape
     \cup UNION { { TunFail([Natural(a, e) EXCEPT !.astatus = 1]),                               \* credentials refused
                    TunFail([Natural(a, e) EXCEPT !.method = 255, !.aver = Neg1]),               \* no acceptable method
@@ -293,15 +333,18 @@ TunSlice ==
            : a \in ReqAuths, d \in DestNames \ {"udp"}, b \in SuccessBnds }
     \cup { TunFail([Natural(a, "no") EXCEPT !.dest = d, !.rep = r])
            : a \in ReqAuths, d \in {"v4", "v6", "v6mapped", "dom255"}, r \in {2, 3, 4, 6, 8} }
-    \cup UNION { { TunUdp(Natural(a, e)), TunUdp([Natural(a, e) EXCEPT !.astatus = 1]), TunUdp([Natural(a, e) EXCEPT !.rep = 1]) }
+    \cup UNION { { TunUdpFlows(Natural(a, e)), TunUdp([Natural(a, e) EXCEPT !.astatus = 1]), TunUdp([Natural(a, e) EXCEPT !.rep = 1]) }
                  : a \in TunOddAuths, e \in {"no", "e6"} }
-    \cup { TunUdp(Natural(a, "no")) : a \in { << "b", 256, 1 >>, << "b", 1, 256 >>, << "mb", 254, 256 >>, << "sni", 256, 0 >> } }
+    \cup ProbeSlice \cup ConnectSilent
+    \cup { TunUdpFlows(Natural(NoneName, "no")) }      \* no credentials: no probe, flows opened without authentication
+    \cup { TunUdpFlows(Natural(a, "no")) : a \in { << "b", 256, 1 >>, << "b", 1, 256 >>, << "mb", 254, 256 >>, << "sni", 256, 0 >> } }
     \* a destination that says nothing, one that says a lot
     \cup { Tun([Natural(NoneName, "no") EXCEPT !.bnd = b], 0, 0) : b \in {"v4", "v6"} }
     \cup { Tun([Natural(a, "no") EXCEPT !.bnd = b], 5000, 3000) : a \in ReqAuths, b \in {"v6", "dom255"} }
 
 \* (the tunnel-level slice is checked and exported by a run of its own, Tier = "tun")
 MCScenarios == IF Tier = "tun" THEN TunSlice
+               ELSE IF Tier = "probe" THEN ProbeSlice
                ELSE AuthSlice \cup ReqSlice \cup SegSlice \cup ExactSlice
 
 \* the client's upload (position-coded)
@@ -313,6 +356,62 @@ Upload(n) == [i \in 1..n |-> (i * 11 + 3) % 253]
 \* index (1-based) in the stream of the first BND.PORT octet, for the relay patch
 BndPortAt(s) == 2 + (IF s.aver >= 0 THEN 2 ELSE 0) + 4 + Len(BndTab[s.bnd].field) + 1
 
+\* --- the session of a tunnel-level scenario --------------------------------------------------
+
+\* What the client's request is answered with (C10).  A TCP CONNECT: the response of the class the
+\* dialogue ends in.  A multiplexer request: its probe is a UDP ASSOCIATE dialogue; a failure reply
+\* of the upstream that names a cause (unreachable, TTL expired) may be reported as that cause or
+\* as a plain failure (there is no destination the cause could be about), and a probe that passes
+\* is followed by the making of the multiplexer - an ICMP multiplexer cannot be made in the
+\* harness's configuration (no ICMP forwarding: Tunnel.tla outcome "notconf").
+\* (without credentials there is nothing to probe: the multiplexer is made at once, Tunnel.tla FwdCreds)
+Probed(s) == s.auth # NoneName
+TunHttp(s, c) ==
+    LET own == { HttpOfClass(ReqClass(t)) : t \in c } IN
+    IF DestTab[s.dest].cmd = CmdConnect THEN own
+    ELSE IF ~ Probed(s) \/ Success(c) THEN { IF s.mux = "icmp" THEN R502(300, FALSE) ELSE R200 }
+    ELSE own \cup (IF \E t \in c : t \in { ReplyTok(r) : r \in 1..8 } THEN { ErrResp("Other") } ELSE {})
+
+\* the client's datagrams: PROTOCOL.md 6.3 records (Wire.tla), no application name
+FlowSrc(i) == [ip |-> << 10, 7, 0, i >>, port |-> 4000 + i]
+FlowDst(j) == [ip |-> << 203, 0, 113, 20 + j >>, port |-> 5300 + j]
+FlowPayload(i, j) == << 80 + i, j, 170 >>
+FlowRecord(i, j) ==
+    LET body == UdpInFixed(FlowSrc(i).ip, FlowSrc(i).port, FlowDst(j).ip, FlowDst(j).port, 0) \o FlowPayload(i, j)
+    IN U32BE(Len(body)) \o body
+
+\* A datagram of a source that has no association yet opens one: the forwarder makes a UDP ASSOCIATE
+\* handshake of its own for it, on behalf of the same client - the dialogue of the probe's scenario
+\* with a server that plays along (the messages: greeting, the authentication message of the
+\* session's credentials, the request); later datagrams of the source use the association.
+FlowScn(s) == [TunUdp(Natural(s.auth, s.ext)) EXCEPT !.exactIfFail = FALSE]
+FlowRec(k, fl, opens, f, p) ==
+    LET i == fl[1]  j == fl[2] IN
+    [ src |-> FlowSrc(i), dst |-> FlowDst(j), payload |-> FlowPayload(i, j), record |-> FlowRecord(i, j),
+      opens |-> opens,
+      \* the handshake: what the server says, the messages it must receive, what is sent to the relay then
+      stream |-> IF opens THEN p.stream ELSE << >>,
+      relayPortAt |-> IF opens THEN BndPortAt(f) ELSE 0,
+      emit |-> IF opens THEN p.emit ELSE << >>,
+      relayed |-> UdpWrap(FlowDst(j).ip, FlowDst(j).port, FlowPayload(i, j)) ]
+FlowsWith(s, f, st) ==
+    [ k \in 1..Len(s.flows) |->
+        FlowRec(k, s.flows[k], \A m \in 1..(k - 1) : s.flows[m][1] # s.flows[k][1], f, [stream |-> st, emit |-> PredOn(f, st).emit]) ]
+FlowsOf1(s, f) == FlowsWith(s, f, StreamOf(f))
+FlowsOf(s, c) ==
+    IF ~ (s.tun /\ DestTab[s.dest].cmd = CmdUdpAssociate /\ s.mux = "udp" /\ (Success(c) \/ ~ Probed(s))) THEN << >>
+    ELSE FlowsOf1(s, FlowScn(s))
+
+\* every handshake of a session carries the session's credentials in the session's variant, and says
+\* them in full: a flow is opened by greeting, authentication message, request (or not at all)
+FlowOk(s, f, p) ==
+    /\ f.auth = s.auth /\ f.ext = s.ext /\ f.dest = "udp"
+    /\ (s.flows # << >> /\ AuthTab[s.auth][s.ext].ok /\ AuthTab[s.auth][s.ext].enc)
+          => /\ p.emit = IF s.auth = NoneName THEN << "greeting", "request" >> ELSE << "greeting", "auth", "request" >>
+             /\ p.cls = {"UdpAssociated"}
+FlowOk1(s, f) == FlowOk(s, f, Pred(f))
+ASSUME Tier \in {"tun", "probe"} => \A s \in MCScenarios : FlowOk1(s, FlowScn(s))
+
 EmitBehaviour ==
     Done => PrintT(<< "BEH", ToJson([ scn |-> scn, stream |-> stream, emit |-> emitted, used |-> consumed,
                                      accept |-> cls, acceptReq |-> { ReqClass(t) : t \in cls },
@@ -320,6 +419,10 @@ EmitBehaviour ==
                                      \* the tunnel: what the client must get, what the server must get after the messages
                                      down |-> IF scn.tun /\ "Established" \in cls THEN Remainder ELSE << >>,
                                      upload |-> IF scn.tun THEN Upload(scn.up) ELSE << >>,
+                                     \* the tunnel-level session: the response to the request, the flows served then
+                                     http |-> IF scn.tun THEN TunHttp(scn, cls) ELSE {},
+                                     probed |-> Probed(scn),
+                                     flows |-> FlowsOf(scn, cls),
                                      hist |-> hist ]) >>)
 
 --------------------------------------------------------------------------
@@ -327,6 +430,7 @@ EmitBehaviour ==
 
 \* every pair a scenario may name (the slices use a subset)
 AllAuthExtPairs == { << a, "no" >> : a \in AuthNames } \cup { << a, e >> : a \in AuthNames \ {NoneName}, e \in {"e4ua", "e6"} }
+                   \cup { << a, "e4t" >> : a \in ProbeAuths }
 
 ASSUME \A pr \in AllAuthExtPairs :
     LET k == AuthKind(pr[1])  d == AuthTab[pr[1]][pr[2]] IN
@@ -334,7 +438,7 @@ ASSUME \A pr \in AllAuthExtPairs :
                               ok |-> d.ok, enc |-> d.enc, method |-> d.method,
                               greeting |-> d.greeting, msg |-> IF d.enc THEN d.msg ELSE << >>,
                               user |-> d.user, pass |-> d.pass, exts |-> d.exts,
-                              tls |-> TlsDomain, ua |-> UserAgent,
+                              tls |-> TlsDomain, ua |-> IF pr[2] = "e4t" THEN UserAgentText ELSE UserAgent,
                               client |-> IF pr[2] = "e6" THEN Client6 ELSE Client4 ]) >>)
 
 \* the class of a destination as signatures name it
